@@ -1,0 +1,8 @@
+//go:build !verif
+
+package query
+
+// commitOrder is the identity unless csvq is built for verification.
+func commitOrder(m map[string]*FileInfo) map[string]*FileInfo {
+	return m
+}
